@@ -1,7 +1,8 @@
 From Coq Require Import List NArith Bool.
 From V.gen Require Consts PeerIdSites.
-From V.common Require Import Varint Protobuf.
-From V.C18 Require Import Model Proofs KeyProofs.
+From V.common Require Import Varint Protobuf Sha256.
+From V.C18 Require Import Model Proofs KeyProofs Addr.
+From V.C19 Require Import Formats.
 Import ListNotations.
 Open Scope N_scope.
 From V.C18 Require Import Properties.
@@ -194,3 +195,33 @@ Check (C18_is_public_key_other :
     is_public_key H (from_public_key H k1) k2 = Some false).
 Check (C18_infallible_conversion :
   forall p, valid p = true -> ref_admits p = true).
+Check (C18_multiaddr_roundtrip :
+  forall cs, forallb comp_ok cs = true -> maddr_parse (enc_maddr cs) = Ok cs).
+Check (C18_multiaddr_trailing_p2p :
+  forall cs p, forallb comp_ok cs = true -> valid p = true ->
+    of_maddr (enc_maddr (cs ++ [(P2P, to_bytes p)])) = Some p).
+Check (C18_multiaddr_id_valid :
+  forall b p, of_maddr b = Some p -> valid p = true).
+Check (C18_component_is_multiaddr :
+  forall p, valid p = true -> of_maddr (to_component p) = Some p /\ of_component (to_component p) = Some p).
+Check (C18_parsed_p2p_has_id :
+  forall b cs, maddr_parse b = Ok cs -> ends_with_p2p cs = true -> exists p, of_maddr b = Some p).
+Check (C18_address_record_new :
+  forall p b cs, maddr_parse b = Ok cs -> valid p = true ->
+    exists rb, record_new_bytes p b = Some rb /\ maddr_parse rb = Ok (record_new p cs) /\
+      (ends_with_p2p cs = false -> of_maddr rb = Some p) /\
+      (ends_with_p2p cs = true -> rb = b /\ exists q, of_maddr rb = Some q)).
+Check (C18_address_record_components :
+  forall p cs, forallb comp_ok cs = true -> valid p = true ->
+    ends_with_p2p (record_new p cs) = true /\
+    forallb comp_ok (record_new p cs) = true /\
+    (ends_with_p2p cs = false -> of_maddr (enc_maddr (record_new p cs)) = Some p) /\
+    (ends_with_p2p cs = true -> record_new p cs = cs)).
+Check (C18_derive_sha256 :
+  forall enc, derive sha256 enc = if len enc <=? 42 then mkPid 0 enc else mkPid 18 (sha256 enc)).
+Check (C18_derived_roundtrip :
+  forall enc, bytes_ok enc = true ->
+    valid (derive sha256 enc) = true /\
+    of_bytes (to_bytes (derive sha256 enc)) = Some (derive sha256 enc) /\
+    of_text (to_text (derive sha256 enc)) = Some (derive sha256 enc) /\
+    of_component (to_component (derive sha256 enc)) = Some (derive sha256 enc)).
